@@ -183,22 +183,28 @@ def positive_orient(kind, p, t):
 # ---------------------------------------------------------------- random tier
 
 def delaunay_int(dim, npts, box, rng):
-    """Integer-coordinate Delaunay mesh (scipy.spatial.Delaunay), degenerate simplices removed."""
+    """Integer-coordinate Delaunay mesh (scipy.spatial.Delaunay), degenerate simplices removed.
+    Degenerate point sets (Qhull errors) are re-drawn."""
     from scipy.spatial import Delaunay
-    pts = set()
-    while len(pts) < npts:
-        pts.add(tuple(int(x) for x in rng.integers(0, box + 1, size=dim)))
-    P = np.array(sorted(pts), dtype=float)
-    tri = Delaunay(P)
-    T = tri.simplices
-    keep = []
-    for s in T:
-        M = (P[s[1:]] - P[s[0]])
-        if abs(round(np.linalg.det(M))) > 0:
-            keep.append(s)
-    T = np.array(keep)
-    p, t = submesh(P.T, T.T, range(T.shape[0]))
-    return p, t
+    for _ in range(50):
+        pts = set()
+        while len(pts) < npts:
+            pts.add(tuple(int(x) for x in rng.integers(0, box + 1, size=dim)))
+        P = np.array(sorted(pts), dtype=float)
+        try:
+            tri = Delaunay(P)
+        except Exception:
+            continue
+        keep = []
+        for s in tri.simplices:
+            M = (P[s[1:]] - P[s[0]])
+            if abs(round(np.linalg.det(M))) > 0:
+                keep.append(s)
+        if not keep:
+            continue
+        T = np.array(keep)
+        return submesh(P.T, T.T, range(T.shape[0]))
+    return np.zeros((dim, 0)), np.zeros((dim + 1, 0), dtype=int)
 
 
 def make(kind, p, t, **kw):
